@@ -69,7 +69,7 @@ CHECKS = {
             {"name": "race-handlers", "run": "^TestVerif_C09_RaceHandlers$", "race": True, "tiers": ["thorough"], "shards": {"thorough": 2, "quick": 2},
              "harness": MAINKIT + ["main/grpckit_test.go", "main/race_handlers_test.go"], "instrument": EPOCH_PERF},
         ],
-        "quick": {"shards": 16, "budget_s": 90},
+        "quick": {"shards": 16, "budget_s": 180},
         "thorough": {"shards": 16, "budget_s": 900},
     },
     "C18": {
